@@ -22,7 +22,7 @@ from ..common import const_int, seg, short
 from ..consteval import Unknown, fold_in
 from ..linear import linform
 from ..model import AnalysisError, walk_no_nested
-from ..paths import calls_in
+from ..paths import calls_in, event_exprs
 from ..report import Ctx
 
 SEGMENT_REF = '''
@@ -329,6 +329,23 @@ def _type_rows(ctx: Ctx, r, wd) -> None:
                     break
             c_end = run.env.get(cn)
         except Inconclusive as exc:
+            # the interpreter cannot follow this path.  One thing is still decided from the calls on it: elements of a declaration are
+            # stored one by one through the accessor of their own width (each element reduced modulo its width by the cast in front
+            # of the call); a path that stores them through another accessor (bytes packed into words ..) does something else
+            want_acc = {"byte": {"write_byte"}, "half": {"write_halfword"}, "word": {"write_word"}, "string": {"write_byte"}, "zero": set()}.get(kind)
+            used = set()
+            for e in p.events[it[0] + 1:it[1]]:
+                for x in event_exprs(e):
+                    for c_ in calls_in(x):
+                        if isinstance(c_.func, ast.Attribute) and c_.func.attr.startswith("write_") and "memory" in ast.unparse(c_.func.value):
+                            used.add(c_.func.attr)
+                        elif isinstance(c_.func, (ast.Attribute, ast.Name)) and (getattr(c_.func, "attr", None) or getattr(c_.func, "id", "")).startswith("_write_"):
+                            used.add(getattr(c_.func, "attr", None) or c_.func.id)  # type: ignore[union-attr]
+            if want_acc is not None and used and not used <= want_acc:
+                r.check(False, f".{kind}|accessor", wd.loc(), f"a path of the declaration loop stores `.{kind}` elements through {sorted(used - want_acc)} "
+                        f"instead of {sorted(want_acc) or 'nothing'}: the elements are no longer written one by one at their own width (reduced modulo "
+                        f"the element width by the cast in front of each store), and the path is outside the abstract interpreter ({exc})")
+                continue
             raise AnalysisError(f"R05.types: the .{kind} path of the declaration loop is outside the abstract interpreter: {exc}")
         if not feasible or p.term == "raise" and it[1] >= len(p.events):
             continue
